@@ -12,6 +12,8 @@ import (
 	"fmt"
 	"io"
 	"net"
+	"net/http"
+	"strings"
 	"syscall"
 	"testing"
 	"testing/synctest"
@@ -30,7 +32,7 @@ var (
 )
 
 type Case struct {
-	Kind  string // abort-close abort-reset iofault hello-mutation hello-truncation h2-mutation plain-http stall slow-reader slow-backend abort-many h2-flood
+	Kind  string // abort-close abort-reset iofault hello-mutation hello-truncation h2-mutation plain-http stall slow-reader slow-backend odd-backend abort-many h2-flood
 	Proto string // h1 h2
 	K     int    // byte offset / op index / mutation index
 	Err   string // for iofault
@@ -268,6 +270,32 @@ func Run(t *testing.T, cs Case, opts bubble.StackOpts, hello []byte, oracle func
 			} else {
 				cl.Abort(syscall.ECONNRESET)
 			}
+		case "odd-backend":
+			// the third party misbehaves: K = the status code the backend answers with (any three-digit code is legal on the
+			// wire); Val 0: small body, 1: 64 KiB of response headers, 2: a response body shorter than its Content-Length
+			st.Backend.Respond = func(r *bubble.RecReq) *bubble.Resp {
+				if r.Path != "/odd" {
+					return nil
+				}
+				rs := &bubble.Resp{Status: cs.K, Body: []byte("odd")}
+				if cs.Val == 1 {
+					rs.Header = http.Header{}
+					for i := 0; i < 64; i++ {
+						rs.Header.Add(fmt.Sprintf("X-Big-%d", i), strings.Repeat("v", 1000))
+					}
+				}
+				return rs
+			}
+			cl = st.Connect("victim", nil, helloFor(cs.Proto))
+			synctest.Wait()
+			if cs.Proto == "h1" {
+				cl.SendH1(bubble.Req{Path: "/odd", Host: "localhost"})
+			} else {
+				cl.StartH2()
+				cl.SendH2(1, bubble.Req{Path: "/odd", Host: "localhost"})
+			}
+			synctest.Wait()
+			cl.Close()
 		case "slow-backend":
 			// the backend takes K seconds to answer - past the proxy's write / read / idle timeouts when K is large enough.
 			// Val 0: GET; 1: POST with a complete body; 2: POST whose body the client never finishes
